@@ -30,6 +30,9 @@ CHECKS["C20"] = ("exploration", "weak-reference retention PBT over long lazily g
 CHECKS["C07"] = ("exploration", "model-based history PBT: generated borrow/close/tool/drop histories vs a shared synchronous iterator",
   "Generated operation histories (next, asend, close, close via iter, hand to any of 26 tools, drop+gc, borrow/re-borrow) over four kinds of underlying iterator; after every operation the underlying is not closed and every item obtained anywhere is exactly next(model); closed lineages yield nothing; the owner finally drains exactly the rest.",
   "handle state after a tool used it is 'unknown' (either stop or next(model) accepted); athrow through a handle not generated", "4/C07")
+CHECKS["C08"] = ("fault_enumeration", "generated scoped_iter block programs vs a shared synchronous iterator; every cancellation point and generated raise positions",
+  "Generated nested scoped_iter blocks (depth 1-3) applying any of 26 tools to the scoped handles; items must be next(model), the underlying is never closed inside and exactly once after the outermost exit, inner handles die with their scope only; exit by fall-through, by an exception at a generated position, and by cancellation at EVERY suspension point of the run.",
+  "iterators without aclose (documented neutral context) and athrow through the handle are not generated", "4/C08")
 REASONS = {}
 props = [json.loads(l)["id"] for l in open(os.path.join(HERE, "properties.jsonl"))]
 checks = []
